@@ -3,7 +3,7 @@ CONSTANTS
   Ident = "kitty"
   Style3 = "kitty"
   Bits = 2
-  Fams = {"P", "T", "I"}
+  Fams = {"Q", "T", "I"}
   WithBad = FALSE
   WithInv = FALSE
   Dyn = TRUE
